@@ -8,8 +8,9 @@ are CrossHair symbolic values, so one CrossHair condition covers every schedule 
 "Confirmed over all paths" discharges it.  The classes under test and asyncio's Event/Future/Task are
 the real ones.  What this module provides:
 
-* DetLoop        - asyncio.SelectorEventLoop with a deterministic clock (CrossHair makes time.*
-                   symbolic, which the stock loop answers with NotDeterministic).
+* DetLoop        - asyncio.BaseEventLoop (the real scheduler) with a deterministic clock and a null I/O
+                   selector (CrossHair makes time.* symbolic, which the stock loop answers with
+                   NotDeterministic); SelectorDetLoop is the same on the stock SelectorEventLoop.
 * run_det / run_plain - run a scenario on a fresh DetLoop (under CrossHair) or on the STOCK asyncio
                    loop (concrete replay of a counterexample, no CrossHair, no DetLoop).
 * step / settle  - one loop iteration / run until no callback is ready (the drain bit's meaning).
@@ -36,8 +37,39 @@ class Prune(Exception):
     """The chosen action is not enabled in the current state (schedule not well-formed)."""
 
 
-class DetLoop(asyncio.SelectorEventLoop):
-    """The real selector event loop; only the clock is replaced by a director-controlled number."""
+class _NullSelector:
+    """No file descriptor is ever registered in these harnesses: nothing to poll."""
+
+    def select(self, timeout=None):
+        return []
+
+    def close(self):
+        pass
+
+
+class DetLoop(asyncio.BaseEventLoop):
+    """asyncio's real scheduler (BaseEventLoop: call_soon, the ready queue, _run_once, Task stepping) with
+    a director-controlled clock and a null I/O selector.  Measured 2x the CrossHair throughput of the
+    SelectorEventLoop variant below (no socketpair/epoll object per explored path); the callbacks run
+    and their order are the same because both inherit them from BaseEventLoop."""
+
+    def __init__(self):
+        super().__init__()
+        self._selector = _NullSelector()
+        self.now = 0.0
+
+    def _process_events(self, event_list):
+        pass
+
+    def _write_to_self(self):
+        pass
+
+    def time(self):
+        return self.now
+
+
+class SelectorDetLoop(asyncio.SelectorEventLoop):
+    """The stock selector loop with only the clock replaced (VT_SCHED_LOOP=selector selects it)."""
 
     def __init__(self):
         super().__init__()
@@ -48,7 +80,7 @@ class DetLoop(asyncio.SelectorEventLoop):
 
 
 def run_det(coro):
-    loop = DetLoop()
+    loop = SelectorDetLoop() if os.environ.get('VT_SCHED_LOOP') == 'selector' else DetLoop()
     try:
         return loop.run_until_complete(coro)
     finally:
@@ -83,6 +115,19 @@ async def settle():
     raise AssertionError('livelock: callbacks still ready after %d loop iterations' % SETTLE_CAP)
 
 
+async def cleanup(tasks):
+    """Cancel whatever is still pending and let the cancellations run, so that no task outlives its loop
+    (called from a scenario's `finally`; never part of the oracle)."""
+    for t in tasks:
+        if t is not None and not t.done():
+            t.cancel()
+    for _ in range(6):
+        await asyncio.sleep(0)
+    for t in tasks:
+        if t is not None and t.done() and not t.cancelled():
+            t.exception()
+
+
 def load_file(modname, relpath):
     """Import one repository file by path under a private module name (no package side effects)."""
     if modname in sys.modules:
@@ -111,11 +156,14 @@ def _tagval(v):
     return {True: 'T', False: 'F'}.get(v, str(v)) if isinstance(v, bool) else str(v).replace('-', 'm')
 
 
-def gen_shards(modname, harness_module, params, shard_on, extra_pre=(), entry=('check', 'reach')):
+def gen_shards(modname, harness_module, params, shard_on, extra_pre=(), entry=('check', 'reach'), const=None,
+               prefix='', meta=None):
     """params: [(name, 'int', lo, hi) | (name, 'bool')] in the positional order of the harness entry points
     `check(*params)` and `reach(*params)`.  shard_on: {name: [values]} - one shard per element of the
     cartesian product; the lists must cover the parameter's whole declared range for the claim to be
-    "all schedules" (asserted here).  Returns (generated module name, [shard dict])."""
+    "all schedules" (asserted here).  const: {name: value} parameters held constant in every shard (a stated
+    bound, not a coverage claim).  Returns (generated module name, [shard dict])."""
+    const = dict(const or {})
     byname = {p[0]: p for p in params}
     for n, vals in shard_on.items():
         p = byname[n]
@@ -123,18 +171,18 @@ def gen_shards(modname, harness_module, params, shard_on, extra_pre=(), entry=('
         if sorted(vals) != full:
             raise HarnessError(f'shard values for {n} do not cover its range {full}')
     names = list(shard_on)
-    free = [p for p in params if p[0] not in shard_on]
+    free = [p for p in params if p[0] not in shard_on and p[0] not in const]
     sig = ', '.join(f'{p[0]}: {p[1]}' for p in free)
     pres = [f'    pre: {p[2]} <= {p[0]} <= {p[3]}' for p in free if p[1] == 'int'] + [f'    pre: {e}' for e in extra_pre]
     out = [f'from {harness_module} import {entry[0]} as _check, {entry[1]} as _reach\n']
     shards = []
     for combo in itertools.product(*[shard_on[n] for n in names]):
-        fixed = dict(zip(names, combo))
-        tag = '_'.join(f'{n}{_tagval(v)}' for n, v in fixed.items()) or 'all'
+        tag = prefix + ('_'.join(f'{n}{_tagval(v)}' for n, v in zip(names, combo)) or 'all')
+        fixed = {**const, **dict(zip(names, combo))}
         call = ', '.join(repr(fixed[p[0]]) if p[0] in fixed else p[0] for p in params)
         for kind in ('check', 'reach'):
             out.append(_FN.format(kind=kind, tag=tag, sig=sig, pre='\n'.join(pres), call=call))
-        shards.append({'tag': tag, 'fixed': fixed, 'free': [p[0] for p in free]})
+        shards.append({'tag': tag, 'fixed': fixed, 'free': [p[0] for p in free], 'meta': dict(meta or {})})
     gm = chrun.gen_module(modname, '\n'.join(out))
     for s in shards:
         s['check'] = f'{gm}.check_{s["tag"]}'
@@ -142,15 +190,15 @@ def gen_shards(modname, harness_module, params, shard_on, extra_pre=(), entry=('
     return gm, shards
 
 
-def run_shards(shards, per_condition_timeout, workers=8, reach_timeout=None):
+def run_shards(shards, per_condition_timeout, workers=8):
     """Runs every shard's condition and reachability twin (one CrossHair process each, <= `workers` at a
-    time).  Adds to each shard: verdict, msg, secs, reach (verdict), reach_msg, cex (full argument dict)."""
-    res = chrun.run([s['check'] for s in shards], per_condition_timeout=per_condition_timeout, workers=workers)
-    rres = chrun.run([s['reach'] for s in shards], per_condition_timeout=reach_timeout or per_condition_timeout,
-                     workers=workers)
+    time, twins first: they stop at the first complete schedule).  Adds to each shard: verdict, msg, secs,
+    reach_verdict, reach_msg, reach_secs, cex (full argument dict of a counterexample)."""
+    targets = [s['reach'] for s in shards] + [s['check'] for s in shards]
+    res = chrun.run(targets, per_condition_timeout=per_condition_timeout, workers=workers)
     for s in shards:
         s['verdict'], s['msg'], s['secs'] = res[s['check']]
-        s['reach_verdict'], s['reach_msg'], s['reach_secs'] = rres[s['reach']]
+        s['reach_verdict'], s['reach_msg'], s['reach_secs'] = res[s['reach']]
         s['cex'] = None
         if s['verdict'] == 'refuted':
             args = chrun.parse_counterexample(s['msg'], s['free'])
@@ -160,10 +208,10 @@ def run_shards(shards, per_condition_timeout, workers=8, reach_timeout=None):
     return shards
 
 
-def discharge(R, shards, title, replay_fn, describe, states_per_path=None):
-    """One obligation per shard.  replay_fn(args) -> (ok, cls, why) runs the schedule on plain asyncio on the
-    real class; a CrossHair counterexample whose replay says ok is a harness error.  One VIOLATION /
-    KNOWN-FINDING line per distinct finding class."""
+def discharge(R, shards, title, replay_fn, describe):
+    """One obligation per shard.  replay_fn(args, meta) -> (ok, cls, why) runs the schedule on plain asyncio
+    on the real class; a CrossHair counterexample whose replay says ok is a harness error.  One VIOLATION /
+    KNOWN-FINDING line per distinct finding class.  Returns {class: status}."""
     seen = {}
     for s in shards:
         name = f'{title} [{s["tag"]}]'
@@ -172,11 +220,12 @@ def discharge(R, shards, title, replay_fn, describe, states_per_path=None):
         if s['verdict'] == 'confirmed':
             R.ob(name, 'discharged' if reach else 'not_discharged', s['secs'], det, nontrivial=reach)
         elif s['verdict'] == 'refuted':
-            ok, cls, why = replay_fn(s['cex'])
+            ok, cls, why = replay_fn(s['cex'], s['meta'])
             if ok:
                 raise HarnessError(f'CrossHair counterexample does not reproduce on plain asyncio: {s["cex"]}')
             if cls not in seen:
-                seen[cls] = R.finding(cls, f'{describe(s["cex"])} -> {why}', s['cex'])
+                seen[cls] = R.finding(cls, f'{describe(s["cex"], s["meta"])} -> {why}',
+                                      {'args': s['cex'], 'meta': s['meta']})
             R.ob(name, seen[cls], s['secs'], {'class': cls, 'cex': s['cex'], 'why': why, **det}, nontrivial=True)
         else:
             R.ob(name, 'not_discharged', s['secs'], {'crosshair': s['msg'][-200:], **det})
